@@ -200,6 +200,12 @@ func (c *Ctx) Fresh(prefix string, s *Sort) *Term {
 	c.fresh++
 	return c.Var(fmt.Sprintf("%s!%d", sanitize(prefix), c.fresh), s)
 }
+
+// BVarFixed returns the bound variable with exactly this name (for canonical comprehensions).
+func (c *Ctx) BVarFixed(name string, s *Sort) *Term {
+	return c.mk(&Term{Op: "bvar", S: s, Name: sanitize(name) + "?fixed"})
+}
+
 func (c *Ctx) BVar(prefix string, s *Sort) *Term {
 	c.fresh++
 	return c.mk(&Term{Op: "bvar", S: s, Name: fmt.Sprintf("%s?%d", sanitize(prefix), c.fresh)})
